@@ -246,14 +246,22 @@ impl Ev {
         fnv(h, self.bs.0.as_bytes());
         fnv(h, self.be.0.as_bytes());
         fnv_i(h, &self.vals);
-        // elements created during the call are numbered in creation order (the order of the user callbacks
-        // that made them), so that WHERE they end up is part of what is compared
+        // arguments first; then elements created during the call: products of the user's closure / iterator in
+        // call order (that order is the user's to see), clones grouped by the element they were cloned from
+        // (the order in which different elements are cloned is not part of the comparison). WHERE the new
+        // elements end up is then part of what is compared.
+        let ids: Vec<i64> = self.ids.iter().map(|x| m(canon, *x)).collect();
         for c in &self.cbs {
-            if matches!(c.k.name(), "clone" | "gen" | "iter") {
+            if matches!(c.k.name(), "gen" | "iter") {
                 m(canon, c.id);
             }
         }
-        let ids: Vec<i64> = self.ids.iter().map(|x| m(canon, *x)).collect();
+        let mut clones: Vec<(i64, usize, i64)> = self.cbs.iter().enumerate()
+            .filter(|(_, c)| c.k.name() == "clone").map(|(k, c)| (m(canon, c.src), k, c.id)).collect();
+        clones.sort();
+        for (_, _, id) in clones {
+            m(canon, id);
+        }
         fnv_i(h, &ids);
         fnv(h, self.ret.k.as_bytes());
         let mut r: Vec<i64> = self.ret.ids.iter().map(|x| m(canon, *x)).collect();
